@@ -35,3 +35,6 @@ func c14NewClient(cfg retry.Config) (func(context.Context) error, func(context.C
 		return c.UploadTraces(ctx, []*tracepb.ResourceSpans{c14Item})
 	}, c.Stop
 }
+
+// whether the client has a stop function that cancels in-flight exports
+const c14HasStop = true
